@@ -203,6 +203,17 @@ def cases(tier, seed):
         if k % 5 == 0:
             fault = (rng.randrange(1, 40), rng.choice(["silent", "err"]))
         cs.append({"seq": "discover", "bus": _bus(devs, rng, fault=fault), "addresses": addresses, "scan": scan})
+    # a fault at every answer position of small scans (enabled / disabled / typed instances mixed)
+    for variant in range(3 if tier == "quick" else 12):
+        devs = []
+        for s_ in (4, 9):
+            devs.append({"short": s_, "status": rng.choice([0, 0x02, 0x08]),
+                         "inst": [_inst(rng, enabled=(k + variant) % 2, type_=rng.randrange(32)) for k in range(3)]})
+        nans = 2 * (2 + 3 + 3)
+        for at in range(1, nans + 1):
+            for fk in ("silent", "err"):
+                cs.append({"seq": "discover", "bus": _bus([dict(d, inst=[dict(i) for i in d["inst"]]) for d in devs], rng, fault=(at, fk)),
+                           "addresses": [4, 9], "scan": [4, 9]})
     return cs
 
 
